@@ -395,7 +395,10 @@ def check(repo, rep, tier):
         guard_txt = " | ".join(" & ".join(("" if pol else "not ") + "(" + norm(t) + ")" for t, pol in p_.conds) or "always" for p_ in paths)
         # abstract exit codes: what sys.exit(x) turns into -- None/0 -> status 0; any other object -> non-zero status
         # (falsy non-zero objects such as '' or [] included: CPython prints them and exits with status 1)
-        for ec_label, ec in (("None", None), ("0", 0), ("3", 3), ("'msg'", "msg"), ("object", o), ("''", ""), ("[]", [])):
+        # the first row is "sys.exit never called" (the field keeps its initial None); on the others the field holds what the
+        # interposed sys.exit stores for that argument (the argument itself, or something computed from it - evaluated on the row)
+        for ec_label, ec, called in (("None (sys.exit not called)", None, False), ("None", None, True), ("0", 0, True), ("3", 3, True),
+                                     ("True", True, True), ("'msg'", "msg", True), ("object", o, True), ("''", "", True), ("[]", [], True)):
             for ex_label, ex in (("None", None), ("raised", RuntimeError("x")), ("raised without arguments", RuntimeError())):
                 if interp_record is not None:
                     ex_attr = interp_record[0]
@@ -405,6 +408,18 @@ def check(repo, rep, tier):
                        "__inst__": inst, "__cls__": eo.name}
                 # the field holds what the interposed excepthook stores for this exception (the object itself, or something
                 # computed from it - evaluated on the row)
+                if called and "sys.exit" in record_expr:
+                    rx, hf = record_expr["sys.exit"]
+                    hp = [a.arg for a in hf.node.args.args][1:]
+                    henv = dict(env)
+                    if hp:
+                        henv[hp[0]] = ec
+                    try:
+                        env["%s.%s" % (inst, ec_attr)] = mini_eval(rx, henv)
+                    except KeyError as e_:
+                        r2.undecided(inner.loc(), inner.fq, norm(rx)[:80], "what the exit hook records is outside the table evaluator: %s" % e_)
+                        rows = None
+                        break
                 if ex is not None and "sys.excepthook" in record_expr:
                     rx, hf = record_expr["sys.excepthook"]
                     hp = [a.arg for a in hf.node.args.args][1:]
@@ -450,7 +465,7 @@ def check(repo, rep, tier):
                     r2.undecided(inner.loc(), inner.fq, guard_txt[:160], "guard uses a construct outside the table evaluator: %s" % e)
                     rows = None
                     break
-                want = (ec is None or (isinstance(ec, int) and ec == 0)) and ex is None
+                want = (ec is None or (isinstance(ec, int) and not isinstance(ec, bool) and ec == 0)) and ex is None
                 rows.append((ec_label, ex_label, runs, want))
             if rows is None:
                 break
